@@ -28,11 +28,11 @@ def run(ctx):
         prog, info = load_program(cfg, "e57")
         ctx.configs[cfg] = info
         ctx.cfg = cfg
-        bound_rules.allocation_sizes(ctx, prog, "R1", "reader")
-        bound_rules.loop_progress(ctx, prog, "R2", "reader", floor=12)
-        pcw_rules.raw_reader_count(ctx, prog, "R3")
-        pcw_rules.raw_reader_count(ctx, prog, "R3", path=simple_rules.IT, adt="pc_reader_simple::PointCloudReaderSimple", records=("pc", "records"))
-        blob_rules.read_bounded(ctx, prog, "R4")
-        bound_rules.xml_parser_options(ctx, prog, "R5")
-        bound_rules.no_growing_rescan(ctx, prog, "R6")
+        ctx.call(bound_rules.allocation_sizes, prog, "R1", "reader")
+        ctx.call(bound_rules.loop_progress, prog, "R2", "reader", floor=12)
+        ctx.call(pcw_rules.raw_reader_count, prog, "R3")
+        ctx.call(pcw_rules.raw_reader_count, prog, "R3", path=simple_rules.IT, adt="pc_reader_simple::PointCloudReaderSimple", records=("pc", "records"))
+        ctx.call(blob_rules.read_bounded, prog, "R4")
+        ctx.call(bound_rules.xml_parser_options, prog, "R5")
+        ctx.call(bound_rules.no_growing_rescan, prog, "R6")
     ctx.cfg = None
